@@ -110,6 +110,11 @@ func (n *Node) AcceptSync(server *vnet.Conn) *ServerConn {
 				dead = true
 				return
 			}
+			if h.Length < 0 || h.Length > 1<<24 {
+				n.FrameErrors = append(n.FrameErrors, fmt.Sprintf("conn%d: implausible frame length %d", sc.ID, h.Length))
+				dead = true
+				return
+			}
 			if len(buf) < hs+int(h.Length) {
 				return
 			}
@@ -168,6 +173,11 @@ func (n *Node) serve(sc *ServerConn) {
 		if err != nil {
 			n.touch()
 			n.FrameErrors = append(n.FrameErrors, fmt.Sprintf("conn%d: bad header % x: %v", sc.ID, hdr, err))
+			return
+		}
+		if h.Length < 0 || h.Length > 1<<24 {
+			n.touch()
+			n.FrameErrors = append(n.FrameErrors, fmt.Sprintf("conn%d: implausible frame length %d", sc.ID, h.Length))
 			return
 		}
 		body := make([]byte, h.Length)
@@ -230,8 +240,7 @@ func (n *Node) dispatch(sc *ServerConn, rec *ReqRec, h frame.Header, rep Reply) 
 			vsched.Sleep(rep.Delay)
 		}
 		if rep.CutAt > 0 && rep.CutAt < len(raw) {
-			sc.C.Write(raw[:rep.CutAt])
-			sc.C.Abort()
+			sc.C.WriteAndAbort(raw[:rep.CutAt])
 			return
 		}
 		if _, err := sc.C.Write(raw); err == nil {
